@@ -613,10 +613,14 @@ class SQLiteTLE(object):
             if not table_exists(self.db, satid):
                 # no TLE collected for this platform yet
                 continue
+            query = f"SELECT epoch, tle FROM '{satid:d}' ORDER BY epoch DESC LIMIT 1"  # nosec
+            row = self.db.execute(query).fetchone()  # nosec
+            if row is None:
+                # table created but no TLE stored yet
+                continue
+            epoch, tle = row
             if self.writer_config.get("write_name", False):
                 data.append(platform_name)
-            query = f"SELECT epoch, tle FROM '{satid:d}' ORDER BY epoch DESC LIMIT 1"  # nosec
-            epoch, tle = self.db.execute(query).fetchone()  # nosec
             date_epoch = dt.datetime.fromisoformat(epoch)
             tle_age = (_utcnow() - date_epoch).total_seconds() / 3600.
             logging.info("Latest TLE for '%s' (%s) is %d hours old.",
